@@ -14,6 +14,7 @@ pub fn gen_kind(rng: &mut Rng) -> AtomKind {
         0..=4 => AtomKind::Star,
         5..=10 => AtomKind::Aliphatic(all_aliphatic().swap_remove(rng.below(12))),
         11..=12 => AtomKind::Aromatic(all_aromatic().swap_remove(rng.below(6))),
+        13..=14 => gen_edge_bracket(rng),
         _ => gen_bracket(rng),
     }
 }
@@ -31,7 +32,7 @@ pub fn gen_bracket(rng: &mut Rng) -> AtomKind {
     }
 }
 pub fn gen_bk(rng: &mut Rng) -> BondKind { if rng.chance(2, 5) { BondKind::Elided } else { all_bond_kind().swap_remove(rng.below(8)) } }
-pub fn gen_rnum(rng: &mut Rng) -> Rnum { rnum_of(match rng.below(10) { 0 => rng.below(100) as u16, 1 => 10 + rng.below(3) as u16, 2 => 0, _ => 1 + rng.below(3) as u16 }) }
+pub fn gen_rnum(rng: &mut Rng) -> Rnum { rnum_of(match rng.below(12) { 0 | 1 => rng.below(100) as u16, 2 => 10 + rng.below(3) as u16, 3 => 0, 4 => 99, 5 => 9 + rng.below(2) as u16, _ => 1 + rng.below(3) as u16 }) }
 
 /// A protocol-conformant history of `n` further events after the first root.
 pub fn gen_history(rng: &mut Rng, n: usize) -> Vec<Ev> {
@@ -101,4 +102,37 @@ pub fn mutate_graph(rng: &mut Rng, g: &mut Vec<Atom>) -> &'static str {
 pub fn gen_junk_graph(rng: &mut Rng, maxn: usize) -> Vec<Atom> {
     let n = rng.below(maxn + 1);
     (0..n).map(|_| Atom { kind: gen_kind(rng), bonds: (0..rng.below(4)).map(|_| Bond::new(gen_bk(rng), rng.below(n + 1))).collect() }).collect()
+}
+
+/// k ring closures open at the same time: chain a_0..a_{k-1}, b_{k-1}..b_0 with a ring bond a_i - b_i listed after the chain bonds.
+pub fn gen_ladder(rng: &mut Rng, k: usize) -> Vec<Atom> {
+    let n = 2 * k;
+    let mut g: Vec<Atom> = (0..n).map(|_| Atom { kind: if rng.chance(1, 6) { gen_kind(rng) } else { AtomKind::Aliphatic(all_aliphatic().swap_remove(1)) }, bonds: vec![] }).collect();
+    let a = |i: usize| i; let b = |i: usize| 2 * k - 1 - i;
+    for i in 0..n - 1 { let kd = if rng.chance(1, 5) { gen_bk(rng) } else { BondKind::Elided }; g[i].bonds.push(Bond::new(kd.clone(), i + 1)); g[i + 1].bonds.push(Bond::new(kd.reverse(), i)) }
+    for i in 0..k { if a(i) + 1 == b(i) { continue } let kd = if rng.chance(1, 4) { gen_bk(rng) } else { BondKind::Elided }; g[a(i)].bonds.push(Bond::new(kd.clone(), b(i))); let at = rng.below(g[b(i)].bonds.len() + 1); g[b(i)].bonds.insert(at, Bond::new(kd.reverse(), a(i))) }
+    g
+}
+/// one hub atom of high degree (stereo and parity at degree >= 4), with a few rings among its neighbours
+pub fn gen_hub(rng: &mut Rng, deg: usize) -> Vec<Atom> {
+    let n = deg + 1;
+    let mut g: Vec<Atom> = (0..n).map(|_| Atom { kind: gen_kind(rng), bonds: vec![] }).collect();
+    let hub = rng.below(n);
+    let mut others: Vec<usize> = (0..n).filter(|x| *x != hub).collect(); rng.shuffle(&mut others);
+    for &o in &others { let kd = gen_bk(rng); g[hub].bonds.push(Bond::new(kd.clone(), o)); g[o].bonds.push(Bond::new(kd.reverse(), hub)) }
+    for _ in 0..rng.below(deg / 2 + 1) { let x = *rng.pick(&others); let y = *rng.pick(&others); if x != y && !g[x].bonds.iter().any(|b| b.tid == y) { let kd = gen_bk(rng); let at = rng.below(g[x].bonds.len() + 1); g[x].bonds.insert(at, Bond::new(kd.clone(), y)); let at2 = rng.below(g[y].bonds.len() + 1); g[y].bonds.insert(at2, Bond::new(kd.reverse(), x)) } }
+    let mut hb = std::mem::take(&mut g[hub].bonds); rng.shuffle(&mut hb); g[hub].bonds = hb;
+    g
+}
+/// bracket atoms at the edges of every field's range
+pub fn gen_edge_bracket(rng: &mut Rng) -> AtomKind {
+    let cfgs = [Configuration::TH1, Configuration::TH2, Configuration::AL1, Configuration::AL2, Configuration::SP1, Configuration::SP3, Configuration::TB1, Configuration::TB9, Configuration::TB10, Configuration::TB19, Configuration::TB20, Configuration::OH1, Configuration::OH9, Configuration::OH10, Configuration::OH19, Configuration::OH20, Configuration::OH29, Configuration::OH30];
+    AtomKind::Bracket {
+        isotope: match rng.below(4) { 0 => None, 1 => Some(Number::try_from(999).unwrap()), 2 => Some(Number::try_from(0).unwrap()), _ => Some(Number::try_from(rng.below(1000) as u16).unwrap()) },
+        symbol: match rng.below(3) { 0 => BracketSymbol::Element(all_element().swap_remove(rng.below(118))), 1 => BracketSymbol::Aromatic(all_bracket_aromatic().swap_remove(rng.below(8))), _ => BracketSymbol::Star },
+        configuration: if rng.chance(1, 3) { None } else { Some(cfgs[rng.below(cfgs.len())].clone()) },
+        hcount: match rng.below(4) { 0 => None, 1 => Some(VirtualHydrogen::H0), 2 => Some(VirtualHydrogen::H9), _ => Some(all_virtual_hydrogen().swap_remove(rng.below(10))) },
+        charge: match rng.below(4) { 0 => None, 1 => Some(Charge::Fifteen), 2 => Some(Charge::MinusFifteen), _ => Some(all_charge().swap_remove(rng.below(30))) },
+        map: match rng.below(4) { 0 => None, 1 => Some(Number::try_from(999).unwrap()), 2 => Some(Number::try_from(0).unwrap()), _ => Some(Number::try_from(rng.below(1000) as u16).unwrap()) },
+    }
 }
